@@ -88,6 +88,26 @@ type want struct {
 	mnop    bool
 	anyTime bool // start/end presence not asserted
 	anyTrig bool
+	op      string // kernel operation that produced the values: remove | query | "" (notification, periodic batch)
+}
+
+// opOff makes what the kernel hands out depend on why it was asked (removal / query / periodic batch): a report answering
+// a removal cannot then be mistaken for the one answering a query made while handling the same message.
+func opOff(op string) uint64 {
+	switch op {
+	case "remove":
+		return 1 << 20
+	case "query":
+		return 2 << 20
+	}
+	return 0
+}
+
+func (v Vals) usageOp(op string, urr uint32) simkernel.Usage {
+	u := v.usage(0, urr)
+	o := opOff(op)
+	u.TotVol, u.UlVol, u.DlVol, u.TotPkt, u.UlPkt, u.DlPkt = u.TotVol+o, u.UlVol+o, u.DlVol+o, u.TotPkt+o, u.UlPkt+o, u.DlPkt+o
+	return u
 }
 
 func (v Vals) usage(trigger uint32, urr uint32) simkernel.Usage {
@@ -148,7 +168,7 @@ func match(carrier string, g stack.UsageDetail, w want) *vcore.Violation {
 	if !w.anyTrig && g.Trig != w.trig {
 		return vcore.Violatef("trigger", "%s URR %d: usage report trigger %#x, expected %#x", carrier, g.URR, g.Trig, w.trig)
 	}
-	u := w.vals.usage(0, w.urr)
+	u := w.vals.usageOp(w.op, w.urr)
 	if g.Start == nil || g.End == nil {
 		if !w.anyTime {
 			return vcore.Violatef("time-missing", "%s URR %d: start/end time missing", carrier, g.URR)
@@ -234,7 +254,7 @@ func run(c Case) (v *vcore.Violation, stt stats) {
 	}
 	// current kernel values
 	var cur Vals
-	f.D.K.UsageFor = func(op string, k simkernel.RuleKey) simkernel.Usage { return cur.usage(0, uint32(k.ID)) }
+	f.D.K.UsageFor = func(op string, k simkernel.RuleKey) simkernel.Usage { return cur.usageOp(op, uint32(k.ID)) }
 	quiet := map[uint32]bool{}
 	for _, q := range c.Quiet {
 		quiet[q] = true
@@ -473,7 +493,7 @@ func run(c Case) (v *vcore.Violation, stt stats) {
 			if x := checkSRRs(what, o, exp, nil); x != nil {
 				return x, stt
 			}
-		case "query", "remove", "update", "rmpdr", "del", "create":
+		case "query", "remove", "update", "rmpdr", "rmboth", "del", "create":
 			if ev.Sess >= len(ms) || !ms[ev.Sess].alive {
 				continue
 			}
@@ -486,7 +506,7 @@ func run(c Case) (v *vcore.Violation, stt stats) {
 				for _, id := range ev.URRs {
 					rules = append(rules, stack.RuleOp{Verb: "query", Kind: "URR", ID: id})
 					if u, ok := m.urrs[id]; ok {
-						ws = append(ws, want{urr: id, trig: stack.TrigIMMER, vals: ev.Vals, method: u.Method, mnop: u.MNOP})
+						ws = append(ws, want{urr: id, trig: stack.TrigIMMER, vals: ev.Vals, method: u.Method, mnop: u.MNOP, op: "query"})
 					}
 				}
 			case "remove":
@@ -499,7 +519,7 @@ func run(c Case) (v *vcore.Violation, stt stats) {
 					rules = append(rules, stack.RuleOp{Verb: "remove", Kind: "URR", ID: id})
 					if u, ok := m.urrs[id]; ok {
 						if !quiet[id] {
-							ws = append(ws, want{urr: id, trig: stack.TrigTERMR, vals: ev.Vals, method: u.Method, mnop: u.MNOP})
+							ws = append(ws, want{urr: id, trig: stack.TrigTERMR, vals: ev.Vals, method: u.Method, mnop: u.MNOP, op: "remove"})
 						}
 						delete(m.urrs, id)
 						delete(m.pdrHas, id)
@@ -540,6 +560,42 @@ func run(c Case) (v *vcore.Violation, stt stats) {
 						m.urrs[id] = u
 					}
 				}
+			case "rmboth":
+				// one message removes the PDR and some of the URRs it refers to: each removed URR answers with the usage its
+				// removal returns (not with a query made for the PDR's sake), the others with a query report
+				if !m.pdr {
+					continue
+				}
+				rules = append(rules, stack.RuleOp{Verb: "remove", Kind: "PDR", ID: 1})
+				m.pdr = false
+				gone := map[uint32]bool{}
+				for _, id := range ev.URRs {
+					if gone[id] {
+						continue
+					}
+					gone[id] = true
+					rules = append(rules, stack.RuleOp{Verb: "remove", Kind: "URR", ID: id})
+					if u, ok := m.urrs[id]; ok {
+						if !quiet[id] {
+							ws = append(ws, want{urr: id, trig: stack.TrigTERMR, vals: ev.Vals, method: u.Method, mnop: u.MNOP, op: "remove"})
+						}
+						delete(m.urrs, id)
+						m.gone[id] = u
+					}
+				}
+				var rest []int
+				for id := range m.pdrHas {
+					if !gone[id] {
+						rest = append(rest, int(id))
+					}
+				}
+				sort.Ints(rest)
+				for _, id := range rest {
+					if u, ok := m.urrs[uint32(id)]; ok {
+						ws = append(ws, want{urr: u.ID, trig: stack.TrigTERMR, vals: ev.Vals, method: u.Method, mnop: u.MNOP, op: "query"})
+					}
+				}
+				m.pdrHas = map[uint32]bool{}
 			case "rmpdr":
 				if !m.pdr {
 					continue
@@ -553,7 +609,7 @@ func run(c Case) (v *vcore.Violation, stt stats) {
 				sort.Ints(ids)
 				for _, id := range ids {
 					if u, ok := m.urrs[uint32(id)]; ok {
-						ws = append(ws, want{urr: u.ID, trig: stack.TrigTERMR, vals: ev.Vals, method: u.Method, mnop: u.MNOP})
+						ws = append(ws, want{urr: u.ID, trig: stack.TrigTERMR, vals: ev.Vals, method: u.Method, mnop: u.MNOP, op: "query"})
 					}
 				}
 				m.pdrHas = map[uint32]bool{}
@@ -561,7 +617,7 @@ func run(c Case) (v *vcore.Violation, stt stats) {
 				op = stack.Op{Kind: "del", Peer: m.spec.Node, Sess: m.ref}
 				for _, u := range m.urrs {
 					if !quiet[u.ID] {
-						ws = append(ws, want{urr: u.ID, trig: stack.TrigTERMR, vals: ev.Vals, method: u.Method, mnop: u.MNOP})
+						ws = append(ws, want{urr: u.ID, trig: stack.TrigTERMR, vals: ev.Vals, method: u.Method, mnop: u.MNOP, op: "remove"})
 					}
 				}
 				m.alive = false
@@ -662,7 +718,7 @@ func gen(t *rapid.T) Case {
 	}
 	n := rapid.IntRange(1, 12).Draw(t, "nev")
 	for i := 0; i < n; i++ {
-		k := rapid.SampledFrom([]string{"mcast", "mcast", "mcast", "mcast", "query", "query", "remove", "remove", "create", "create", "update", "rmpdr", "del", "tick", "tick", "takeover"}).Draw(t, "kind")
+		k := rapid.SampledFrom([]string{"mcast", "mcast", "mcast", "mcast", "query", "query", "remove", "remove", "create", "create", "update", "rmpdr", "rmboth", "del", "tick", "tick", "takeover"}).Draw(t, "kind")
 		ev := Ev{Kind: k, Sess: rapid.IntRange(0, ns-1).Draw(t, "sess"), Vals: genVals(t)}
 		switch k {
 		case "mcast":
@@ -671,7 +727,7 @@ func gen(t *rapid.T) Case {
 				rp := Rep{Sess: rapid.IntRange(-1, ns-1).Draw(t, "rsess"), URR: uint32(rapid.IntRange(1, 4).Draw(t, "urr")), Cause: rapid.IntRange(0, 17).Draw(t, "cause"), Vals: genVals(t)}
 				ev.Reps = append(ev.Reps, rp)
 			}
-		case "query", "remove", "update", "create":
+		case "query", "remove", "update", "create", "rmboth":
 			nq := rapid.IntRange(1, 3).Draw(t, "nq")
 			seen := map[uint32]bool{}
 			for j := 0; j < nq; j++ {
